@@ -201,7 +201,7 @@ package otr3
 //@   requires c != nil
 //@   modifies c.theirInstanceTag, msglog(c), c.injections.messages, elems(c.injections.messages)
 //@   ensures [C15.header.short] len(msg) < 11 ==> result2 == errInvalidOTRMessage
-//@   ensures [C15.header.parse] result2 == nil ==> (len(msg) >= 11 && result0 === msg[0:11] && result1 === msg[11:] && c.theirInstanceTag == be32(msg, 3) && be32(msg, 3) >= 256 && (be32(msg, 7) == 0 || be32(msg, 7) == c.ourInstanceTag))
+//@   ensures [C15.header.parse,C02.header.exact] result2 == nil ==> (len(msg) >= 11 && result0 === msg[0:11] && result1 === msg[11:] && c.theirInstanceTag == be32(msg, 3) && be32(msg, 3) >= 256 && (be32(msg, 7) == 0 || be32(msg, 7) == c.ourInstanceTag))
 //@   ensures [C15.header.reject,C06.header.reject] result2 != nil ==> (result0 === nil && result1 === nil)
 //@   ensures [C15.learn.valid.header,C06.itag.frame.header] c.theirInstanceTag != old(c.theirInstanceTag) ==> (result2 == nil && old(c.theirInstanceTag) == 0)
 
@@ -810,6 +810,7 @@ package otr3
 //@ func (*Conversation).calcAKEKeys
 //@   requires c != nil && c.ake != nil && c.version != nil && s != nil
 //@   modifies c.ssid, c.ake.revealKey.*, c.ake.sigKey.*, secbs(nil)
+//@   ensures [C01.ssid.installed,C10.ssid.installed] bytesof(c.ssid) == bs_sub(akeTerm(0), 0, 8)
 //@   ensures [C10.ake.keys.len] len(c.ake.revealKey.c) == 16 && len(c.ake.sigKey.c) == 16 && len(c.ake.revealKey.m1) == 32 && len(c.ake.revealKey.m2) == 32 && len(c.ake.sigKey.m1) == 32 && len(c.ake.sigKey.m2) == 32
 //@   ensures nonglobal(c.ake.revealKey.c) && nonglobal(c.ake.sigKey.c) && nonglobal(c.ake.revealKey.m1) && nonglobal(c.ake.revealKey.m2) && nonglobal(c.ake.sigKey.m1) && nonglobal(c.ake.sigKey.m2)
 //@ func (*Conversation).calcDHSharedSecret
